@@ -65,7 +65,7 @@ initial sequence that stands for "does not exist" (repair of F21).  (Well-formed
 message validators' `Doc.valid`.) -/
 def didGenesisValid (l : List (Bytes × Did.DocWithSeq)) : Bool :=
   l.all fun e =>
-    decide (e.2.seq < 18446744073709551615) &&
+    decide (e.2.seq < 18446744073709551616) &&   -- a uint64; the end of the range is handled by the handlers (F23)
     (match e.2.doc with
      | some doc => doc.empty || doc.id == e.1
      | none => false)
